@@ -259,7 +259,11 @@ func runC16(c *Ctx) {
 
 		wait := p.CallTo("(*golang.org/x/sync/errgroup.Group).Wait")
 		cancel := p.CallTo("dyn:*param#0.runCtxCancel")
+		// (the start-up step is a function literal called in place, or an unexported method of the runtime)
 		startErr := FactEdge("nonnil(call:closure:" + FuncName(fRun) + "$1())")
+		if sb := p.BodyWith(fRun, p.CallTo("(*"+pkgRuntime+".Runtime).setupWatches")); sb != nil && sb.Parent() == nil {
+			startErr = FactEdge("nonnil(call:" + FuncName(sb) + "(param#0*")
+		}
 
 		c.MustCut("R16.5", "return ⊣ {group.Wait, start-up failed}", fRun, IsReturn, CutSpec{Nodes: wait, Edges: startErr}, 1)
 		c.MustCut("R16.5", "group.Wait ⊣ {runCtxCancel}", fRun, wait, CutSpec{Nodes: cancel}, 1)
@@ -269,7 +273,7 @@ func runC16(c *Ctx) {
 		}
 
 		// start order: watches before controllers (shared with C05)
-		if start := ClosureWith(fRun, p.CallTo("(*"+pkgRuntime+".Runtime).setupWatches")); c.NeedFunc("R16.5", start, "Run start closure") {
+		if start := p.BodyWith(fRun, p.CallTo("(*"+pkgRuntime+".Runtime).setupWatches")); c.NeedFunc("R16.5", start, "Run start closure") {
 			c.NoReach("R16.5", "setupWatches failure cancels and starts nothing", start, p.EdgeSuccs(start, "nonnil(call:(*"+pkgRuntime+".Runtime).setupWatches(*"), 1,
 				p.CallTo("(*golang.org/x/sync/errgroup.Group).Go", pkgRuntime+".goFunc"), CutSpec{})
 		}
